@@ -710,6 +710,9 @@ func monC14(c *Case, tr *Trace) []Violation {
 			if sn.Registry != 0 {
 				add("registry_entry_left", sn.Step, "AllReverseTunnels() still lists %d tunnel(s) after every tunnel ended", sn.Registry)
 			}
+			if len(sn.KeyReady) > 0 {
+				add("registry_entry_left", sn.Step, "the per-key registry still holds a tunnel for key(s) %v after every tunnel ended (KeyAsChannel(k).Ready() is true)", sn.KeyReady)
+			}
 			for si, tab := range sn.ServerTables {
 				add("server_left_after_tunnel_end", sn.Step, "tunnel server #%d is still serving after every tunnel ended (table %v)", si, tab)
 			}
